@@ -517,6 +517,11 @@ func c16LiteralPrograms() []string {
 		"z := \"0\"\none := \"1\"\nx := 0\nfor i := range 3\n    x = x + i\nend\nfor c := range \"ab\"\n    z = z + c\nend\nfor e := range [5 6]\n    x = x + e\nend\nz = z\none = one\nx = x\n",
 		"a := [1 2]\nb := \"[1 2]\"\nc := 1.5\nd := \"1.5\"\na = a\nb = b\nc = c\nd = d\n",
 		"e := \"\"\nf := \" \"\ng := 0\nh := \"0\"\ne = e + h\nf = f\ng = g + 0\n",
+		"a := [1 2]\nx := a * 4611686018427387904\nx = x\n", "a := [1 2 3 4 5 6 7 8]\nx := a * 1152921504606846976\nx = x\n", "a := [1 2 3]\nx := a * 3074457345618258603\nx = x\n", "a := [1 2]\nx := a * 9223372036854775807\nx = x\n", "a := [1]\nx := a * 9223372036854775808\nx = x\n",
+		"m := {x:1}\nn := {x:1 y:2}\ne := {}\na := m == n\nb := n == m\nc := m != n\nd := e == m\nf := [m] == [n]\ng := {k:m} != {k:n}\na = a\nb = b\nc = c\nd = d\nf = f\ng = g\n",
+		"m := {x:1}\nn := {x:1 y:2}\ncnt := 0\nfor i := range 10\n    if m == n\n        cnt = cnt + 1\n    end\n    if m != n\n        cnt = cnt + 10\n    end\nend\ncnt = cnt\n",
+		"a := {x:1}\nb := {x:1 y:2}\neq := a == b\nne := a != b\neq = eq\nne = ne\n", "a := {x:1 y:2}\nb := {x:1}\neq := a == b\nne := a != b\neq = eq\nne = ne\n",
+		"a := {x:1}\nb := {x:1 y:2}\nn := 0\nif a == b\n    n = 1\nelse\n    n = 10\nend\nn = n\n", "a := {x:1}\nb := {x:1}\nb.y = 2\nm := [a] == [b]\nm = m\n",
 		"s := \"1\"\nn := 1 + 2\ns = s\nn = n\n",
 		"n := 1 + 2\ns := \"1\" + \"2\"\ns = s\nn = n\n",
 		"z := \"0\"\nx := 0\nfor e := range [5 6]\n    x = x + e\nend\nz = z\nx = x\n",
